@@ -204,7 +204,8 @@ def make_cfg(rng, pool, backends=("file", "memory"), max_rules=3, encodings=("ut
 DEFAULT_WEIGHTS = {
     "add_page": 6, "add_pages": 2, "add_links": 4, "batch": 3,
     "create": 3, "delete": 1, "addp": 2, "rmp": 1, "mvp": 1,
-    "rule": 1, "rmrule": 1, "reopen": 0, "clear": 0,
+    "rule": 1, "rmrule": 1, "reopen": 1, "clear": 0.6,
+    "bad_delete": 0.5, "bad_rmp": 0.4, "bad_mvp": 0.3,
 }
 
 
@@ -272,8 +273,10 @@ def gen_history(rng, cfg, pool, text, nops, weights=None, allow_uncrawled_pages=
         elif k == "batch":
             data = []
             srcs = set()
-            for _ in range(rng.randint(1, 3)):
-                s = pick()
+            seen_targets = []
+            for _ in range(rng.choice([1, 2, 3, 3, 5])):
+                # a page met as a target earlier in this batch comes back as a source
+                s = rng.choice(seen_targets) if seen_targets and rng.random() < 0.4 else pick()
                 if s in srcs:
                     continue
                 srcs.add(s)
@@ -286,8 +289,14 @@ def gen_history(rng, cfg, pool, text, nops, weights=None, allow_uncrawled_pages=
                         ts.append(rng.choice(ts))
                     elif r < 0.4 and srcs:
                         ts.append(rng.choice(sorted(srcs)))
+                    elif r < 0.5 and seen_targets:
+                        ts.append(rng.choice(seen_targets) + rng.choice(PATHS))  # hooks right below an earlier target
+                    elif r < 0.6 and seen_targets:
+                        ts.append(rng.choice(seen_targets))
                     else:
                         ts.append(pick())
+                ts = [x for x in ts if rules_ok(x)]
+                seen_targets += ts
                 data.append([s, ts])
             ops.append({"op": "batch", "data": data, "yf": rng.choice([1, 2, 50])})
             m.batch(data)
@@ -340,6 +349,25 @@ def gen_history(rng, cfg, pool, text, nops, weights=None, allow_uncrawled_pages=
             a = rng.choice(sorted(m.flags))
             ops.append({"op": "rmrule", "anchor": a})
             m.remove_rule(a)
+        elif k == "bad_delete" and len(set(m.we.values())) >= 1:
+            # a deletion that must be refused: one listed prefix belongs to another webentity or to none
+            of = rng.choice(sorted(m.we))
+            gid = m.we[of]
+            ps = sorted(p for p, g in m.we.items() if g == gid)
+            others = sorted(p for p, g in m.we.items() if g != gid) + [some_prefix(rng, pick(), 1, 5)]
+            bad = rng.choice(others)
+            if bad in ps:
+                continue
+            ps.insert(rng.randint(0, len(ps)), bad)
+            ops.append({"op": "bad_delete", "of": of, "prefixes": ps})
+        elif k == "bad_rmp" and len(set(m.we.values())) >= 2:
+            p = rng.choice(sorted(m.we))
+            other = rng.choice(sorted(q for q in m.we if m.we[q] != m.we[p]))
+            ops.append({"op": "bad_rmp", "prefix": p, "of": other})
+        elif k == "bad_mvp" and len(set(m.we.values())) >= 2:
+            p = rng.choice(sorted(m.we))
+            other = rng.choice(sorted(q for q in m.we if m.we[q] != m.we[p]))
+            ops.append({"op": "bad_mvp", "prefix": p, "of": other, "wrong_src_of": other})
         elif k == "reopen" and cfg["backend"] == "file":
             ops.append({"op": "reopen"})
         elif k == "clear":
